@@ -200,6 +200,11 @@ def auto_discharge(prog, fn, v, op, a, b):
             return 'u32 value widened to usize before + 1'
     if op == 'Add' and sa.kind == 'phi' and sb.kind == 'const' and isinstance(sb.args[0], int) and sb.args[0] <= 2:
         return 'counter with constant step'
+    if op == 'Add' and sb.kind == 'const' and isinstance(sb.args[0], int) and 0 <= sb.args[0] <= 16 and (v.ty or '').startswith(('usize', '(usize')):
+        from origins import origins
+        ats = origins(prog, fn, sa)
+        if ats and all(a[0] in ('search', 'len') for a in ats):
+            return 'a Vec position / length (at most isize::MAX) plus a small constant cannot overflow usize'
     if op == 'Sub' and sa.kind == 'call' and sa.callee_name() == 'len':
         # len - n where n <= len guarded
         for (g, x, y) in guards:
@@ -341,6 +346,10 @@ def is_dbg_span(sp):
 def table_key(mk, name, sg):
     for key in ((mk, name, sg), (mk, '*', sg)):
         if key in TABLE:
+            return key
+    # the function may have been moved to another file of the module
+    for key in TABLE:
+        if key[1] == name and key[2] == sg and name != '*':
             return key
     # families of sites
     if mk == 'heap' and name in ('range_to_intersect_mask', 'range_to_place_mask', 'range_to_fill_mask', 'order_to_heap_index'):
